@@ -151,6 +151,7 @@ class TConst(T):
 # ------------------------------------------------------------------------------- contract
 LOWER = z3.Function("LOWER", z3.StringSort(), z3.StringSort())
 STRIP = z3.Function("STRIP", z3.StringSort(), z3.StringSort())
+STRIPCH = z3.Function("STRIPCH", z3.StringSort(), z3.StringSort(), z3.StringSort())
 RSTRIP = z3.Function("RSTRIP", z3.StringSort(), z3.StringSort())
 LSTRIP = z3.Function("LSTRIP", z3.StringSort(), z3.StringSort())
 REPLACE_ALL = z3.Function("REPLACE_ALL", z3.StringSort(), z3.StringSort(), z3.StringSort(), z3.StringSort())
@@ -261,6 +262,9 @@ class Contract:
 
     def strip(self, t):
         return STRIP(t)
+
+    def strip_chars(self, t, chars):
+        return STRIPCH(t, chars)
 
     def rstrip(self, t):
         return RSTRIP(t)
